@@ -516,6 +516,10 @@ int main(int argc, char **argv)
       continue;
     }
 #ifdef VERIF_DEPS_HOOK
+    if (cmd == "depsdump") {
+      emit_simple("depsdump", 0, "\"dump\":" + jstr(colvars_verif_access::dump(cv)));
+      continue;
+    }
     if (cmd == "deps") {
       std::string rep = colvars_verif_access::check_all(cv);
       emit_simple("deps", rep.empty() ? 0 : 1, "\"report\":" + jstr(rep));
